@@ -23,6 +23,7 @@ package state
 //@ props C03 C06
 //@ results err
 //@ requires entry != nil
+//@ ensures[C06-writer-post] err == nil ==> setPost(old(entry.Key), idx)
 //@ ensures[noop-keeps-index] err == nil && old(T_kvs(entry.Key)) != nil && old(T_kvs(entry.Key).LockIndex) == old(entry.LockIndex) && old(T_kvs(entry.Key).Flags) == old(entry.Flags) && eq(old(T_kvs(entry.Key).Value), old(entry.Value)) && (updateSession ==> old(T_kvs(entry.Key).Session) == old(entry.Session)) ==>
 //@      (forall k string :: T_kvs(k) == old(T_kvs(k))) && idxVal("kvs") == old(idxVal("kvs")) && entry.ModifyIndex == old(T_kvs(entry.Key).ModifyIndex) && T_kvs(entry.Key).ModifyIndex == old(T_kvs(entry.Key).ModifyIndex)
 //@ ensures[write-stores] err == nil && !(old(T_kvs(entry.Key)) != nil && old(T_kvs(entry.Key).LockIndex) == old(entry.LockIndex) && old(T_kvs(entry.Key).Flags) == old(entry.Flags) && eq(old(T_kvs(entry.Key).Value), old(entry.Value)) && (updateSession ==> old(T_kvs(entry.Key).Session) == old(entry.Session))) ==>
@@ -72,6 +73,7 @@ package state
 //@ func Store.kvsDeleteTxn
 //@ props C03 C06
 //@ results err
+//@ ensures[C06-writer-post] err == nil ==> deletePost(key, idx)
 //@ ensures[removed] err == nil ==> T_kvs(key) == nil
 //@ ensures[frame-keys] forall k string :: k != key ==> T_kvs(k) == old(T_kvs(k))
 //@ ensures[tombstone-iff-removed] err == nil && old(T_kvs(key)) != nil ==> T_tombstones(key) != nil && T_tombstones(key).Index == idx && idxVal("kvs") == idx && idxVal("tombstones") == idx
@@ -95,6 +97,7 @@ package state
 //@ func Store.kvsDeleteTreeTxn
 //@ props C03 C06
 //@ results err
+//@ ensures[C06-writer-post] err == nil ==> deleteTreePost(prefix, idx)
 //@ ensures[removed-exactly] err == nil ==> forall k string :: T_kvs(k) == ite(prefixOf(prefix, k), nil, old(T_kvs(k)))
 //@ ensures[tombstone-iff-removed] err == nil && prefix != "" && (exists k string :: prefixOf(prefix, k) && old(T_kvs(k)) != nil) ==> T_tombstones(prefix) != nil && T_tombstones(prefix).Index == idx
 //@ ensures[index-iff-removed] err == nil && (exists k string :: prefixOf(prefix, k) && old(T_kvs(k)) != nil) ==> idxVal("kvs") == idx
@@ -233,6 +236,7 @@ package state
 //@ func Store.kvsListTxn
 //@ props C03 C06
 //@ results ridx, ents, err
+//@ ensures[C06-reader-spec] err == nil && prefix != "" ==> listIdxIs(prefix, ridx)
 //@ ensures[sound] err == nil ==> forall j int :: 0 <= j && j < len(ents) ==> ents[j] != nil && T_kvs(ents[j].Key) == ents[j] && prefixOf(prefix, ents[j].Key)
 //@ ensures[complete] err == nil ==> forall k string :: prefixOf(prefix, k) && T_kvs(k) != nil ==> exists j int :: 0 <= j && j < len(ents) && ents[j] == T_kvs(k)
 //@ ensures[index-whole-tree] err == nil && prefix == "" ==> ridx == tableMax()
@@ -241,3 +245,38 @@ package state
 //@ ensures[index-exact] err == nil && prefix != "" ==> (ridx != 0 && ((exists j int :: 0 <= j && j < len(ents) && ents[j].ModifyIndex == ridx) || (exists k string :: prefixOf(prefix, k) && T_tombstones(k) != nil && T_tombstones(k).Index == ridx))) ||
 //@      (ridx == tableMax() && (forall k string :: prefixOf(prefix, k) && T_kvs(k) != nil ==> T_kvs(k).ModifyIndex <= 0) && (forall k string :: prefixOf(prefix, k) && T_tombstones(k) != nil ==> T_tombstones(k).Index <= 0))
 //@ modifies nothing
+
+// ---- C06: blocking-query contract for the KV readers (two-state lemmas over the writers' postconditions)
+
+//@ file kvs.go
+//@ props C06
+
+//@ pure kvUnchangedExcept(key string) bool = forall k string :: k != key ==> T_kvs(k) == old(T_kvs(k))
+//@ pure tombUnchangedExcept(key string) bool = forall k string :: k != key ==> T_tombstones(k) == old(T_tombstones(k))
+//@ pure tombUnchanged() bool = (forall k string :: T_tombstones(k) == old(T_tombstones(k))) && idxVal("tombstones") == old(idxVal("tombstones"))
+
+// Raft monotonicity (A-RAFT-MONO): the index of the command being applied exceeds every index stored so far.
+//@ pure kvMono(idx uint64) bool = (forall k string :: old(T_kvs(k)) != nil ==> old(T_kvs(k).ModifyIndex) < idx) && (forall k string :: old(T_tombstones(k)) != nil ==> old(T_tombstones(k).Index) < idx) && old(idxVal("kvs")) < idx && old(idxVal("tombstones")) < idx
+
+// what kvsListTxn reports for a non-empty prefix, as a predicate on the current tables (from its contract)
+//@ pure listIdxIs(prefix string, r uint64) bool = (forall k string :: prefixOf(prefix, k) && T_kvs(k) != nil ==> T_kvs(k).ModifyIndex <= r) && (forall k string :: prefixOf(prefix, k) && T_tombstones(k) != nil ==> T_tombstones(k).Index <= r) &&
+//@      ((r != 0 && ((exists k string :: prefixOf(prefix, k) && T_kvs(k) != nil && T_kvs(k).ModifyIndex == r) || (exists k string :: prefixOf(prefix, k) && T_tombstones(k) != nil && T_tombstones(k).Index == r))) ||
+//@       (r == tableMax() && (forall k string :: prefixOf(prefix, k) && T_kvs(k) != nil ==> T_kvs(k).ModifyIndex <= 0) && (forall k string :: prefixOf(prefix, k) && T_tombstones(k) != nil ==> T_tombstones(k).Index <= 0)))
+//@ pure listChanged(prefix string) bool = exists k string :: prefixOf(prefix, k) && T_kvs(k) != old(T_kvs(k))
+
+// postconditions of the writers as two-state predicates (each is an `ensures` of the writer, proved from its code)
+//@ pure setPost(key string, idx uint64) bool = kvUnchangedExcept(key) && tombUnchanged() && (T_kvs(key) != old(T_kvs(key)) ==> T_kvs(key) != nil && T_kvs(key).ModifyIndex == idx && idxVal("kvs") == idx) && (T_kvs(key) == old(T_kvs(key)) ==> idxVal("kvs") == old(idxVal("kvs")))
+//@ pure deletePost(key string, idx uint64) bool = kvUnchangedExcept(key) && tombUnchangedExcept(key) && T_kvs(key) == nil && (old(T_kvs(key)) != nil ==> T_tombstones(key) != nil && T_tombstones(key).Index == idx && idxVal("kvs") == idx && idxVal("tombstones") == idx) && (old(T_kvs(key)) == nil ==> tombUnchanged() && idxVal("kvs") == old(idxVal("kvs")))
+//@ pure deleteTreePost(p string, idx uint64) bool = (forall k string :: T_kvs(k) == ite(prefixOf(p, k), nil, old(T_kvs(k)))) && tombUnchangedExcept(p) &&
+//@      ((exists k string :: prefixOf(p, k) && old(T_kvs(k)) != nil) ==> idxVal("kvs") == idx && (p != "" ==> T_tombstones(p) != nil && T_tombstones(p).Index == idx && idxVal("tombstones") == idx)) &&
+//@      (!(exists k string :: prefixOf(p, k) && old(T_kvs(k)) != nil) ==> tombUnchanged() && idxVal("kvs") == old(idxVal("kvs")))
+
+//@ lemma C06.kvsList-vs-set: forall key string, prefix string, idx uint64, r0 uint64, r uint64 :: prefix != "" && kvMono(idx) && setPost(key, idx) && old(listIdxIs(prefix, r0)) && listIdxIs(prefix, r) && listChanged(prefix) ==> r > r0
+//@ lemma C06.kvsList-vs-delete: forall key string, prefix string, idx uint64, r0 uint64, r uint64 :: prefix != "" && kvMono(idx) && deletePost(key, idx) && old(listIdxIs(prefix, r0)) && listIdxIs(prefix, r) && listChanged(prefix) ==> r > r0
+//@ lemma C06.kvsList-vs-deleteTree: forall p string, prefix string, idx uint64, r0 uint64, r uint64 :: prefix != "" && kvMono(idx) && deleteTreePost(p, idx) && old(listIdxIs(prefix, r0)) && listIdxIs(prefix, r) && listChanged(prefix) ==> r > r0
+//@ lemma C06.kvsGet-vs-set: forall key string, q string, idx uint64 :: kvMono(idx) && setPost(key, idx) && T_kvs(q) != old(T_kvs(q)) ==> tableMax() > old(tableMax())
+//@ lemma C06.kvsGet-vs-delete: forall key string, q string, idx uint64 :: kvMono(idx) && deletePost(key, idx) && T_kvs(q) != old(T_kvs(q)) ==> tableMax() > old(tableMax())
+//@ lemma C06.kvsGet-vs-deleteTree: forall p string, q string, idx uint64 :: kvMono(idx) && deleteTreePost(p, idx) && T_kvs(q) != old(T_kvs(q)) ==> tableMax() > old(tableMax())
+//@ lemma C06.kvsListAll-vs-set: forall key string, idx uint64 :: kvMono(idx) && setPost(key, idx) && listChanged("") ==> tableMax() > old(tableMax())
+//@ lemma C06.kvsListAll-vs-delete: forall key string, idx uint64 :: kvMono(idx) && deletePost(key, idx) && listChanged("") ==> tableMax() > old(tableMax())
+//@ lemma C06.kvsListAll-vs-deleteTree: forall p string, idx uint64 :: kvMono(idx) && deleteTreePost(p, idx) && listChanged("") ==> tableMax() > old(tableMax())
